@@ -390,4 +390,85 @@ theorem Closed.of_markD {s s' : State} {L} (h : Closed s) (hm : MarkD s s' L) : 
   · exact hm.newClosed x w hk hc hx hw hkw
   · exact hm.rel.nonclean (h x w hk hc hw hkw)
 
+/-! ## the `dirty` flag of effects under marking -/
+
+theorem notify_dirty (s : State) (id i : Nat) : ((notify s id).get i).dirty = (s.get i).dirty := by
+  unfold notify
+  split
+  · rfl
+  · simp only
+    split
+    · rw [State.emit_get, State.get_upd]; split <;> rfl
+    · rw [State.get_upd]; split <;> rfl
+
+theorem foldl_dirty_same (g : State → Nat → State)
+    (hg : ∀ s x i, ((g s x).get i).dirty = (s.get i).dirty) :
+    ∀ (l : List Nat) (s : State) (i : Nat), ((l.foldl g s).get i).dirty = (s.get i).dirty
+  | [], _, _ => rfl
+  | x :: l, s, i => by rw [List.foldl_cons, foldl_dirty_same g hg l, hg]
+
+theorem markCheck_dirty : ∀ (f : Nat) (s : State) (y i : Nat),
+    ((markCheck f s y).get i).dirty = (s.get i).dirty
+  | 0, _, _, _ => rfl
+  | f + 1, s, y, i => by
+    unfold markCheck
+    split
+    · rfl
+    · exact notify_dirty s y i
+    · rw [foldl_dirty_same _ (fun s x i => markCheck_dirty f s x i)]
+      split
+      · rw [State.get_upd]; split <;> rfl
+      · rfl
+
+/-- `markDirty` sets the flag of `y` only (and only if `y` is an effect) -/
+theorem markDirty_dirty (f : Nat) (s : State) (y i : Nat) :
+    ((markDirty f s y).get i).dirty = (s.get i).dirty ∨
+    (((markDirty f s y).get i).dirty = true ∧ i = y ∧ (s.get y).kind = .eff) := by
+  unfold markDirty
+  split
+  · exact .inl rfl
+  · next hk =>
+    split
+    · exact .inl rfl
+    · rw [notify_dirty, State.get_upd]
+      split
+      · next hc => obtain ⟨rfl, _⟩ := hc; exact .inr ⟨rfl, rfl, hk⟩
+      · exact .inl rfl
+  · left
+    rw [foldl_dirty_same _ (fun s x i => markCheck_dirty f s x i)]
+    rw [State.get_upd]; split <;> rfl
+
+theorem foldl_markDirty_dirty (f : Nat) : ∀ (l : List Nat) (s : State) (i : Nat),
+    ((l.foldl (fun s x => markDirty f s x) s).get i).dirty = true →
+      (s.get i).dirty = true ∨ (i ∈ l ∧ (s.get i).kind = .eff)
+  | [], _, _, h => .inl h
+  | x :: l, s, i, h => by
+    rw [List.foldl_cons] at h
+    rcases foldl_markDirty_dirty f l _ i h with h1 | h1
+    · rcases markDirty_dirty f s x i with h2 | h2
+      · rw [h2] at h1; exact .inl h1
+      · exact .inr ⟨by rw [h2.2.1]; exact List.mem_cons_self, by rw [h2.2.1]; exact h2.2.2⟩
+    · exact .inr ⟨List.mem_cons_of_mem _ h1.1, by rw [← (markDirty_rel f s x).kind]; exact h1.2⟩
+
+theorem foldl_skip_dirty (f : Nat) : ∀ (l : List Nat) (s : State) (i : Nat),
+    ((l.foldl (fun s x => if s.obs == some x then s else markDirty f s x) s).get i).dirty = true →
+      (s.get i).dirty = true ∨ (i ∈ l ∧ s.obs ≠ some i ∧ (s.get i).kind = .eff)
+  | [], _, _, h => .inl h
+  | x :: l, s, i, h => by
+    rw [List.foldl_cons] at h
+    have hr1 : MarkRel s (if s.obs == some x then s else markDirty f s x) := by
+      split
+      · exact MarkRel.refl s
+      · exact markDirty_rel f s x
+    rcases foldl_skip_dirty f l _ i h with h1 | h1
+    · by_cases ho : (s.obs == some x) = true
+      · rw [if_pos ho] at h1; exact .inl h1
+      · rw [if_neg ho] at h1
+        rcases markDirty_dirty f s x i with h2 | h2
+        · rw [h2] at h1; exact .inl h1
+        · refine .inr ⟨by rw [h2.2.1]; exact List.mem_cons_self, ?_, by rw [h2.2.1]; exact h2.2.2⟩
+          rw [h2.2.1]; simpa using ho
+    · exact .inr ⟨List.mem_cons_of_mem _ h1.1, by rw [← hr1.obs]; exact h1.2.1,
+        by rw [← hr1.kind]; exact h1.2.2⟩
+
 end Leptos.Reactive
